@@ -149,7 +149,11 @@ _pixman_image_fini (pixman_image_t *image)
 	free (common->filter_params);
 
 	if (common->alpha_map)
+	{
+	    common->alpha_map->common.alpha_count--;
+
 	    pixman_image_unref ((pixman_image_t *)common->alpha_map);
+	}
 
 	if (image->type == LINEAR ||
 	    image->type == RADIAL ||
